@@ -74,7 +74,10 @@ def scale_value(rnd, taken_values, safe=False):
         kind = rnd.random()
         if taken_values and kind < 0.15:
             return rnd.choice(sorted(taken_values))  # a tie
-        if kind < 0.4:
+        if rnd.random() < 0.08:
+            # integers beyond the range of i32 (an integer literal has to work as a scale, too)
+            v = Fraction(rnd.choice([2147483648, 3000000000, 4294967296, 10**10]))
+        elif kind < 0.4:
             v = Fraction(rnd.choice([2, 3, 5, 7, 10, 12, 24, 60, 100, 144, 1000, 1024, 3600, 86400, 1000000, 10**9, 10**12]))
         elif kind < 0.7:
             digits = rnd.randint(1, 9)
@@ -85,7 +88,7 @@ def scale_value(rnd, taken_values, safe=False):
             v = Fraction(rnd.randint(1, 9999), 10**rnd.randint(0, 4)) * Fraction(10)**rnd.randint(-5, 8)
         if v <= 0 or v == 1:
             continue
-        if safe and not (Fraction(1, 10**6) <= v <= Fraction(10**9)):
+        if safe and not (Fraction(1, 10**6) <= v <= Fraction(10**10)):
             continue
         if v.denominator > 10**18 or (v * 10**18).denominator != 1:
             continue
@@ -295,7 +298,7 @@ def random_graph(rnd, prefix="G", taken=None, ops_safe=False):
         for (o, x, y, _) in implied_instances(name, a, op, b):
             used.add((o, x, y))
         types.append(random_def(rnd, name, "ref", (a, op, b), taken, safe=ops_safe))
-    if rnd.random() < 0.5:
+    if rnd.random() < 0.75:
         types.append(random_def(rnd, "%sN" % prefix, "noref", None, taken))
     if rnd.random() < 0.5:
         types.append(random_def(rnd, "%sS" % prefix, "single", None, taken))
